@@ -8,8 +8,19 @@
 import ScionTime.Proofs.NtsTotal
 import ScionTime.Proofs.NtsReply
 import ScionTime.Model.NtsPool
+import ScionTime.Gen.Server
 namespace ScionTime.C08Nts
 open ScionTime.Nts
+
+set_option maxRecDepth 100000 in
+/-- The listeners' NTS branch is modelled by `serverReply` (and transcribed by the harness, which
+    cannot call the listeners without sockets). Pin: the sequence of calls into net/nts and
+    net/ntske, and the bound of the cookie loop, in `runIPServer` and `runSCIONServer` are the ones
+    the model follows (regenerated from the sources on every run). -/
+theorem C08Nts_pin_ntsBranch :
+    Gen.Server.ntsBranch_runIPServer = "nts.DecodePacket;ntsreq.FirstCookie;encryptedCookie.Decode;provider.Get;encryptedCookie.Decrypt;nts.ProcessRequest;provider.Current;range(len(ntsreq.Cookies)+len(ntsreq.CookiePlaceholders));serverCookie.EncryptWithNonce;encryptedCookie.Encode;nts.NewResponsePacket;nts.EncodePacket" ∧
+    Gen.Server.ntsBranch_runSCIONServer = Gen.Server.ntsBranch_runIPServer := by
+  decide
 
 /-- `nts.DecodePacket`: total on all inputs (this is also the fuel lemma: `b.length + 1` steps
     suffice, every iteration consumes at least 4 bytes). -/
